@@ -1299,7 +1299,7 @@ CHECKS = {
         assumptions=["partial: the handler model covers the validation logic; the enumeration is pairwise, not the full cross product"]),
     "C15": dict(
         props=["C15", "Tie"],
-        parts=[part_c15_meta, services_part(PRUNE_JOBS, False), timers_part(TIMERS_C15), engine_part("prune", 48, 600, 45, claim_c15,
+        parts=[part_c15_meta, services_part(PRUNE_JOBS, False), part_services_fault, timers_part(TIMERS_C15), engine_part("prune", 48, 600, 45, claim_c15,
                                           ["job_effective:PruneCompletedDeliveries", "job_effective:PruneExpiredDeliveries", "job_effective:PruneCompletedMessages",
                                            "job_effective:PruneDeletedSubDeliveries", "job_effective:PruneDeletedSubs", "job_effective:PruneDeletedTopics"])],
         rule="(1) metamorphic pairs on the real code: the same generated client history (publish / pull / ack / nack / modack / purge-seek / snapshots / deletes / expiry and dead-letter sweeps / "
